@@ -50,7 +50,7 @@ type c37case struct {
 	ServerBits int    `json:"server_bits"`
 	ClientBits int    `json:"client_bits"`
 	Auth       string `json:"auth"`     // anonymous | username
-	AllPairs   bool   `json:"allpairs"` // server enables every supported (policy, mode) pair instead of only this one
+	AllPairs   bool   `json:"allpairs"` // server enables every (policy, mode) pair whose policy admits its key size, instead of only this one
 }
 
 func (c c37case) String() string {
@@ -72,7 +72,7 @@ func c37cases(thorough bool) []c37case {
 			for _, m := range p.Modes {
 				for _, sb := range p.Bits {
 					cbs := []int{sb}
-					if thorough {
+					if thorough && !all {
 						cbs = p.Bits // every pair of allowed (server, client) key sizes
 					}
 					for _, cb := range cbs {
@@ -107,7 +107,17 @@ func c37run(c c37case) (step, detail string) {
 	mode := ua.MessageSecurityMode(c.Mode)
 	var opts []server.Option
 	if c.AllPairs {
+		// every (policy, mode) pair whose policy admits the server's key size
 		for _, q := range policies {
+			admits := q.Name == "None"
+			for _, b := range q.Bits {
+				if b == c.ServerBits {
+					admits = true
+				}
+			}
+			if !admits {
+				continue
+			}
 			for _, m := range q.Modes {
 				opts = append(opts, server.EnableSecurity(q.Name, m))
 			}
@@ -250,7 +260,7 @@ func runC37() {
 		return
 	}
 	cases := c37cases(evid.Thorough())
-	r.Rule(fmt.Sprintf("the complete set of %d configurations: 6 policies x applicable modes (None: None; others: Sign, SignAndEncrypt) x RSA key sizes within the policy's Part 7 limits (1024/2048 for Basic128Rsa15 and Basic256; 2048/3072/4096 for the SHA-256 policies; quick: client and server keys of the same size, thorough: every (server size, client size) pair, and additionally a server with all 11 pairs enabled at once) x {anonymous, username}; one real server + one real client per configuration over loopback TCP; non-trivial = the token type is advertised on the selected endpoint and the whole sequence GetEndpoints/select/Connect/Read/Write/ReadBack/Close was executed, distinct by configuration", len(cases)))
+	r.Rule(fmt.Sprintf("the complete set of %d configurations: 6 policies x applicable modes (None: None; others: Sign, SignAndEncrypt) x RSA key sizes within the policy's Part 7 limits (1024/2048 for Basic128Rsa15 and Basic256; 2048/3072/4096 for the SHA-256 policies; quick: client and server keys of the same size, thorough: every (server size, client size) pair, and additionally, with equal key sizes, a server that enables at once every pair whose policy admits its key size) x {anonymous, username}; one real server + one real client per configuration over loopback TCP; non-trivial = the token type is advertised on the selected endpoint and the whole sequence GetEndpoints/select/Connect/Read/Write/ReadBack/Close was executed, distinct by configuration", len(cases)))
 	r.Assume("server and client run in one process over real loopback TCP with the default Go scheduler; the password of the username token is not checked by the server (it accepts any), so 'username' exercises password encryption and token encoding on the client and decoding on the server only")
 	start := time.Now()
 	deaths := evid.Sharded(r, 0, func(s evid.ShardInfo, w *evid.Run) {
